@@ -91,10 +91,32 @@ pub unsafe extern "C" fn getenv(name: *const std::ffi::c_char) -> *mut std::ffi:
     }
     std::ptr::null_mut()
 }
+/// skew mode (a legal allocator, round 10): byte buffers (alignment 1, at least SKEW_MIN bytes) are handed out at
+/// addresses that are 1 mod 16 -- glibc always returns 16-aligned memory, so code that silently relies on that only
+/// meets this allocator here
+pub static SKEW: AtomicBool = AtomicBool::new(false);
+const SKEW_MIN: usize = 4096;
+#[inline]
+fn is_skewed(p: *mut u8, l: &Layout) -> bool {
+    l.align() == 1 && l.size() >= SKEW_MIN && (p as usize) % 16 == 1
+}
+#[inline]
+unsafe fn skew_alloc(size: usize, zeroed: bool) -> *mut u8 {
+    let l2 = Layout::from_size_align_unchecked(size + 16, 16);
+    let p = if zeroed { System.alloc_zeroed(l2) } else { System.alloc(l2) };
+    if p.is_null() {
+        p
+    } else {
+        p.add(1)
+    }
+}
 unsafe impl GlobalAlloc for SimAlloc {
     unsafe fn alloc(&self, l: Layout) -> *mut u8 {
         if note(l.size()) {
             return std::ptr::null_mut();
+        }
+        if l.align() == 1 && l.size() >= SKEW_MIN && SKEW.load(Ordering::Relaxed) {
+            return skew_alloc(l.size(), false);
         }
         System.alloc(l)
     }
@@ -102,15 +124,30 @@ unsafe impl GlobalAlloc for SimAlloc {
         if note(l.size()) {
             return std::ptr::null_mut();
         }
+        if l.align() == 1 && l.size() >= SKEW_MIN && SKEW.load(Ordering::Relaxed) {
+            return skew_alloc(l.size(), true);
+        }
         System.alloc_zeroed(l)
     }
     unsafe fn realloc(&self, p: *mut u8, l: Layout, n: usize) -> *mut u8 {
         if note(n) {
             return std::ptr::null_mut();
         }
+        if is_skewed(p, &l) {
+            let nl = Layout::from_size_align_unchecked(n, 1);
+            let q = if n >= SKEW_MIN { skew_alloc(n, false) } else { System.alloc(nl) };
+            if !q.is_null() {
+                std::ptr::copy_nonoverlapping(p, q, l.size().min(n));
+                System.dealloc(p.sub(1), Layout::from_size_align_unchecked(l.size() + 16, 16));
+            }
+            return q;
+        }
         System.realloc(p, l, n)
     }
     unsafe fn dealloc(&self, p: *mut u8, l: Layout) {
+        if is_skewed(p, &l) {
+            return System.dealloc(p.sub(1), Layout::from_size_align_unchecked(l.size() + 16, 16));
+        }
         System.dealloc(p, l)
     }
 }
@@ -863,7 +900,14 @@ pub fn c12_alloc_fault(api: u8, min_size: usize, skip: u64, len: usize, seed: u6
         "wrong"
     };
     let mut viol = Vec::new();
-    if outcome == "wrong" {
+    let skew = SKEW.load(Ordering::Relaxed);
+    if skew && refused == 0 && outcome != "right-result" {
+        // nothing was refused: the allocator merely placed byte buffers at odd addresses, which changes nothing observable
+        viol.push(json!({"index": 0, "class": "wrong-result-under-skewed-allocator", "engine": "bigstream",
+            "detail": format!("api {api}, {len} bytes, byte buffers of >= {SKEW_MIN} bytes placed at addresses 1 mod 16 (no allocation refused, {nalloc} seen): got {got}, want {want}"),
+            "history": {"api": api, "skew": true, "len": len, "seed": seed.to_string()},
+            "argv": ["c12alloc", "--api", api.to_string(), "--min-size", min_size.to_string(), "--skip", skip.to_string(), "--len", len.to_string(), "--seed", seed.to_string(), "--dir", dir, "--skew"]}));
+    } else if outcome == "wrong" {
         viol.push(json!({"index": 0, "class": "wrong-result-under-allocation-failure", "engine": "bigstream",
             "detail": format!("api {api}, {len} bytes, allocation requests >= {min_size} bytes refused after the first {skip} ({refused} refused, {nalloc} seen): got {got}, want {want} (or an abort / an I/O error)"),
             "history": {"api": api, "min_size": min_size, "skip": skip, "len": len, "seed": seed.to_string()},
@@ -872,7 +916,7 @@ pub fn c12_alloc_fault(api: u8, min_size: usize, skip: u64, len: usize, seed: u6
     let n = viol.len();
     let rep = json!({"scenario": "c12alloc", "property": "C12", "seed": seed.to_string(), "evaluations": 1, "distinct": 1, "distinct_nontrivial": (refused > 0) as u64,
         "rule": "one evaluation = one process: hash_stream / hash_stream_for / hash_file while every allocation request of at least min_size bytes is refused after the first `skip`; non-trivial = at least one request was refused",
-        "counters": {"fault.allocation_refused": refused, format!("probe.alloc_fault_outcome_{outcome}"): 1}, "samples": [{"api": api, "min_size": min_size, "skip": skip, "outcome": outcome}],
+        "counters": {"fault.allocation_refused": refused, "fault.allocator_skewed_byte_buffers": skew as u64, format!("probe.alloc_fault_outcome_{outcome}"): 1}, "samples": [{"api": api, "min_size": min_size, "skip": skip, "skew": skew, "outcome": outcome}],
         "violation_count": n, "violations": viol, "wall_s": 0.0});
     (if n > 0 { 1 } else { 0 }, rep)
 }
